@@ -4,14 +4,18 @@
    of the model ([Panic], status LPanic / PPanic), so "never panics" is the conjunction of
    the side conditions of all sites.  Running out of the model's own fuel is a
    distinguished value as well ([EFuel]) and is excluded by theorem, not by hypothesis.
-   Runtime facts (stack size, wall time, allocator) are outside the model: validated by
-   tools/props/C05.py (100000 brackets, multi-MB strings, hang guard). *)
+   RECURSION DEPTH is part of the model as well (Model/Depth.v: twins of the parser, the CST
+   walk and the value path that return, next to the result, the maximal number of
+   simultaneously active frames of the recursive Rust functions): it is bounded by an explicit
+   constant for EVERY input, whatever its length (Proofs/DepthBound.v) — `depth_bound`.
+   Runtime facts (bytes of stack per frame, wall time, allocator) are outside the model:
+   validated by tools/props/C05.py (100000 brackets, multi-MB strings, hang guard). *)
 From Coq Require Import List Bool NArith.
 Import ListNotations.
 From JS Require Import Model.Base Model.Shape Model.Sem Model.Infer Model.Lexer Model.Parser
-  Model.Walk Model.TextApi Model.ValueCost
+  Model.Walk Model.TextApi Model.ValueCost Model.JsonRef Model.Depth
   Proofs.TextFacts Proofs.TextLexer Proofs.TextParser Proofs.TextWalk Proofs.TextApiFacts
-  Proofs.InferNoPanic.
+  Proofs.InferNoPanic Proofs.CstTree Proofs.DepthBound.
 
 (* ---- entry points, the code as it is ---- *)
 Theorem C05_from_str_no_panic : forall src, from_str_m cfg_now src <> Panic.
@@ -98,6 +102,81 @@ Print Assumptions C05_tree_no_panic.
 Theorem C05_value_cost_linear : forall d, vcalls d = jnodes d.
 Proof. exact vcalls_linear. Qed.
 Print Assumptions C05_value_cost_linear.
+
+(* ---- recursion depth (`depth_bound`): no stack overflow ---- *)
+(* the lexer stops tokenising at bracket nesting 257: every prefix of the token list it hands
+   to the parser has at most 256 more opening than closing brackets (signed count, as in the
+   Rust code: closing brackets seen first do let more opening ones through) *)
+Theorem C05_lexer_nesting_bound : forall cf s p q, l_toks (lex cf s) = p ++ q -> opens p <= closes p + 256.
+Proof. exact lex_nesting_bound. Qed.
+Print Assumptions C05_lexer_nesting_bound.
+
+(* the depth-instrumented parser computes the parser's result, and the parser's fuel suffices for it *)
+Theorem C05_parser_twin : forall n s, option_map fst (rule_file_d n s) = rule_file n s.
+Proof. exact rule_file_d_fst. Qed.
+Print Assumptions C05_parser_twin.
+
+Theorem C05_parse_depth_defined : forall toks mx, exists s d,
+  rule_file_d (parse_fuel toks) (init_pst toks mx) = Some (s, d) /\
+  rule_file (parse_fuel toks) (init_pst toks mx) = Some s /\ parse_depth toks mx = d.
+Proof. exact parse_depth_run. Qed.
+Print Assumptions C05_parse_depth_defined.
+
+(* frames of rule_file/value/object/member/array/literal/boolean simultaneously active:
+   at most 3 per nesting level + 4, on ANY token list (error recovery included) *)
+Theorem C05_parse_depth_nested : forall toks mx k, nested k toks -> parse_depth toks mx <= 3 * k + 4.
+Proof. exact parse_depth_nested. Qed.
+Print Assumptions C05_parse_depth_nested.
+
+Theorem C05_parse_depth_bound : forall cf s mx, parse_depth (l_toks (lex cf s)) mx <= 772.
+Proof. exact parse_depth_bound. Qed.
+Print Assumptions C05_parse_depth_bound.
+
+(* the CST of EVERY text is the pre-order of one tree rooted at `file` (recovery paths
+   included), of walk height at most 514 below the root *)
+Theorem C05_cst_is_tree : forall cf s, exists fs post,
+  c_nodes (pr_cst (snd (parse_text cf s))) = cflat 0 (CR RFile fs) /\
+  l_toks (lex cf s) = cstoks fs ++ post /\ whs fs <= 514.
+Proof. exact text_cst_is_tree. Qed.
+Print Assumptions C05_cst_is_tree.
+
+(* the depth-instrumented walk computes the walk's result *)
+Theorem C05_walk_twin : forall c src, fst (parse_cst_d c src) = parse_cst c src.
+Proof. exact parse_cst_d_fst. Qed.
+Print Assumptions C05_walk_twin.
+
+(* frames of parse_cst/parse_rule/parse_member/parse_token simultaneously active *)
+Theorem C05_walk_depth_bound : forall cf s, walk_depth (pr_cst (snd (parse_text cf s))) s <= 515.
+Proof. exact walk_depth_bound. Qed.
+Print Assumptions C05_walk_depth_bound.
+
+(* the whole text entry point (lexer: a loop; then parser; then walk), every configuration *)
+Theorem C05_from_str_depth_bound : forall cf s, from_str_depth cf s <= 772.
+Proof. exact from_str_depth_bound. Qed.
+Print Assumptions C05_from_str_depth_bound.
+
+(* value path: the depth-instrumented From<&Value> computes the same shape, and its depth is
+   the nesting depth of the value (which serde_json caps at 128 before the library sees it) *)
+Theorem C05_value_twin : forall d, fst (infer_value_d d) = infer_value d.
+Proof. exact infer_value_d_fst. Qed.
+Print Assumptions C05_value_twin.
+
+Theorem C05_value_depth : forall d, jdepth d <= value_depth d <= S (jdepth d).
+Proof. exact value_depth_jdepth. Qed.
+Print Assumptions C05_value_depth.
+
+(* the constants are attained (256 nested one-member objects around `true`), the 257th
+   opening bracket is not handed to the parser, and closing brackets seen first let more
+   opening ones through without any recursion (the parser never consumes an unmatched one) *)
+Example C05_depth_tight :
+  (let s := (concat (repeat [123; 34; 97; 34; 58] 256) ++ [116; 114; 117; 101] ++ repeat 125 256)%N in
+   parse_depth (l_toks (lex cfg_now s)) (byte_len s) = 772 /\
+   walk_depth (pr_cst (snd (parse_text cfg_now s))) s = 515 /\
+   from_str_m cfg_now s <> Err EFuel) /\
+  length (l_toks (lex cfg_now (repeat 91%N 300))) = 256 /\
+  (let s := (repeat 93 5 ++ repeat 91 300)%N in
+   length (l_toks (lex cfg_now s)) = 266 /\ from_str_depth cfg_now s = 2).
+Proof. vm_compute. repeat split. discriminate. Qed.
 
 (* non-vacuity: a multi-byte text whose error range is checked by computation, and the
    empty array / nested empty containers that used to panic (F1) *)
